@@ -101,6 +101,13 @@ def gen_scenario(r, hostile_p=0.3, ops=None, allow_symlinks=True, for_model=Fals
         cfg["match_links"] = True
     if r.random() < 0.1:
         cfg["no_lock"] = True
+    if r.random() < 0.12 and not sym:
+        # (not over -S reports: a symlink below a root and its target outside are the known finding D18 in another guise)
+        # --isolate given to the dedupe command itself: a subset of the roots, or directories below them, so that some
+        # reported files (and their hard links) lie outside every isolated root; made absolute by materialise()
+        dirs_ = [e["p"] for e in spec["entries"] if e["t"] == "d" and "\n" not in e["p"]]
+        if dirs_:
+            cfg["isolate_rel"] = r.sample(dirs_, min(len(dirs_), r.choice([1, 1, 2])))
     return {"spec": spec, "meta": meta, "group": g, "fmt": fmt, "op": op, "cfg": cfg, "symlinks": sym}
 
 
@@ -121,6 +128,8 @@ def materialise(sc, d):
             e["to"] = troot + "/" + e["to"][6:]
     tree.materialise(spec, troot)
     roots_abs = [fse(os.path.join(troot, rt)) for rt in spec["roots"]]
+    if sc["cfg"].get("isolate_rel"):
+        sc["cfg"]["isolate"] = [os.path.join(troot, x) for x in sc["cfg"].pop("isolate_rel")]
     return troot, roots_abs
 
 
